@@ -110,7 +110,37 @@ func Load(repoDir string) (*Prog, error) {
 		p.fnsIn[fn] = true
 	}
 	sort.Slice(p.allFns, func(i, j int) bool { return FnName(p.allFns[i]) < FnName(p.allFns[j]) })
+	TheProg = p
+	staticSites = nil
 	return p, nil
+}
+
+// TheProg is the program loaded last: the value-following helpers (Mentions, CtxFieldValues) need the static call
+// sites of a function and have no Prog parameter.
+var TheProg *Prog
+
+var staticSites map[*ssa.Function][]ssa.CallInstruction
+
+// StaticSitesOf: the static call sites (call, go, defer) of fn in the module's source functions.
+func StaticSitesOf(fn *ssa.Function) []ssa.CallInstruction {
+	if TheProg == nil {
+		return nil
+	}
+	if staticSites == nil {
+		staticSites = map[*ssa.Function][]ssa.CallInstruction{}
+		for _, f := range TheProg.allFns {
+			for _, b := range f.Blocks {
+				for _, in := range b.Instrs {
+					if ci, ok := in.(ssa.CallInstruction); ok {
+						if g := ci.Common().StaticCallee(); g != nil {
+							staticSites[g] = append(staticSites[g], ci)
+						}
+					}
+				}
+			}
+		}
+	}
+	return staticSites[fn]
 }
 
 // InModulePath: path is the module itself or one of its packages (not a
